@@ -55,7 +55,7 @@ theorem fresh_checkout_path_free (new : List (NewEntry σ)) (st : St σ κ) (h :
   have := h n.dir hmem
   simp only [Bool.and_eq_true, bne_iff_ne, ne_eq, Bool.not_eq_true', List.any_eq_false, beq_iff_eq,
     not_and, Bool.not_eq_true] at this
-  exact this hdot (fun e he => hold e he)
+  exact this ⟨hdot, fun e he => hold e he⟩
 
 /-- the moved directory keeps every nested SCM directory: the contents are the same, only the
 location changes (`os.rename`) -/
